@@ -557,12 +557,7 @@ class StateManager:
         n_dim = state_dict.get("n_dim", 1)
         instance = cls(n_dim)
 
-        if "_current" in state_dict:
-            instance._current.update(state_dict["_current"])
-        if "_history" in state_dict:
-            instance._history.update(state_dict["_history"])
-
-        instance._invalidate_cache()
+        instance.update_from_dict(state_dict)
         return instance
 
     def update_from_dict(self, state_dict: dict):
@@ -587,10 +582,20 @@ class StateManager:
         >>> state.get_current("beta")
         0.5
         """
+        # Store copies (as to_dict() hands out copies): the caller keeps the
+        # dictionary, its lists and its arrays, and must not reach the
+        # internal state through them
         if "_current" in state_dict:
-            self._current.update(state_dict["_current"])
+            self._current.update(
+                {k: self._ensure_copy(v) for k, v in state_dict["_current"].items()}
+            )
         if "_history" in state_dict:
-            self._history.update(state_dict["_history"])
+            self._history.update(
+                {
+                    k: [self._ensure_copy(item) for item in v]
+                    for k, v in state_dict["_history"].items()
+                }
+            )
         if "n_dim" in state_dict:
             self.n_dim = state_dict["n_dim"]
 
